@@ -127,3 +127,20 @@ Theorem C02_CropAndPad_box_gets_the_crop_and_the_pad_shift : forall b cp pp r c 
   crop_and_pad_bbox b cp pp r c s rr rc rs = Ok (moved_box b cp pp r c s rr rc rs).
 Proof. exact crop_and_pad_bbox_spec. Qed.
 Print Assumptions C02_CropAndPad_box_gets_the_crop_and_the_pad_shift.
+
+(* the crop CLASSES hand their window and the frame to bbox_crop in the right slots: for Crop and for
+   RandomCropFromBorders (whose image path cuts [y1,y2) x [x1,x2) x [z1,z2)) the returned box, read in the cropped frame,
+   is the input box shifted by the window origin -- for every frame (rows, cols, slices pairwise different included),
+   every window and every real box *)
+From DV.gen Require Import Gen_cls_crops.
+Theorem C02_crop_classes_cut_the_box_by_the_image_window : forall r c s b x1 y1 z1 x2 y2 z2,
+  (0 < r)%Z -> (0 < c)%Z -> (0 < s)%Z -> (x1 < x2)%Z -> (y1 < y2)%Z -> (z1 < z2)%Z ->
+  (exists nb, Crop_apply_to_bbox x2 x1 y2 y1 z2 z1 (norm_box b r c s) c r s = Ok nb /\
+     box_eq (denorm_box nb (y2 - y1) (x2 - x1) (z2 - z1)) (lat_box (lat_shift y1 x1 z1) b)) /\
+  (exists nb, RandomCropFromBorders_apply_to_bbox (norm_box b r c s) x1 x2 y1 y2 z1 z2 c r s = Ok nb /\
+     box_eq (denorm_box nb (y2 - y1) (x2 - x1) (z2 - z1)) (lat_box (lat_shift y1 x1 z1) b)).
+Proof.
+  intros. unfold Crop_apply_to_bbox, RandomCropFromBorders_apply_to_bbox. cbv beta iota.
+  split; apply bbox_crop_lat; assumption.
+Qed.
+Print Assumptions C02_crop_classes_cut_the_box_by_the_image_window.
